@@ -1488,18 +1488,9 @@ int input_to (svalue_t * fun, int flag, int num_arg, svalue_t * args) {
   if (!command_giver || command_giver->flags & O_DESTRUCTED)
     return 0;
 
-  s = alloc_sentence ();
-  if (!set_call (command_giver, s, flag & ~I_SINGLE_CHAR))
-    {
-      /* LPC spec. says if input_to() is called more than once, only the first call succeeds.
-       * No error is raised for subsequent calls, but the sentence created for the subsequent
-       * call should be freed to avoid memory leaks.
-       */
-      free_sentence (s);
-      return 0;
-    }
-
-  /* Convert string to function pointer or use existing funptr */
+  /* Resolve the callback first: nothing must be installed in the connection
+   * when this raises an error (a sentence without function would be called
+   * with the next input line). */
   if (fun->type == T_STRING)
     {
       /* Find function in current_object and create FP_LOCAL function pointer */
@@ -1520,8 +1511,19 @@ int input_to (svalue_t * fun, int flag, int num_arg, svalue_t * args) {
     }
   else
     {
-      free_sentence (s);
       error ("input_to: fun must be string or function");
+    }
+
+  s = alloc_sentence ();
+  if (!set_call (command_giver, s, flag & ~I_SINGLE_CHAR))
+    {
+      /* LPC spec. says if input_to() is called more than once, only the first call succeeds.
+       * No error is raised for subsequent calls, but the sentence created for the subsequent
+       * call should be freed to avoid memory leaks.
+       */
+      free_funp (callback_funp);
+      free_sentence (s);
+      return 0;
     }
 
   /* Store function pointer (always use V_FUNCTION now) */
@@ -1557,18 +1559,9 @@ int get_char (svalue_t * fun, int flag, int num_arg, svalue_t * args) {
   if (!command_giver || command_giver->flags & O_DESTRUCTED)
     return 0;
 
-  s = alloc_sentence ();
-  if (!set_call (command_giver, s, flag | I_SINGLE_CHAR))
-    {
-      /* LPC spec. says if get_char() is called more than once, only the first call succeeds.
-       * No error is raised for subsequent calls, but the sentence created for the subsequent
-       * call should be freed to avoid memory leaks.
-       */
-      free_sentence (s);
-      return 0;
-    }
-
-  /* Convert string to function pointer or use existing funptr */
+  /* Resolve the callback first: nothing must be installed in the connection
+   * when this raises an error (a sentence without function would be called
+   * with the next input line). */
   if (fun->type == T_STRING)
     {
       /* Find function in current_object and create FP_LOCAL function pointer */
@@ -1576,7 +1569,7 @@ int get_char (svalue_t * fun, int flag, int num_arg, svalue_t * args) {
       dummy.type = T_NUMBER;
       dummy.u.number = 0;
       opt_trace (TT_COMM|2, "set callback function to '%s' in object /%s", fun->u.string, current_object->name);
-      callback_funp = make_lfun_funp_by_name (fun->u.string, &dummy);
+      callback_funp = make_lfun_funp_by_name (fun->u.string, &dummy); /* ref = 1, by sentence->function.f */
       if (!callback_funp)
         {
           error ("Function '%s' not found in get_char", fun->u.string);
@@ -1585,12 +1578,23 @@ int get_char (svalue_t * fun, int flag, int num_arg, svalue_t * args) {
   else if (fun->type == T_FUNCTION)
     {
       callback_funp = fun->u.fp;
-      callback_funp->hdr.ref++;
+      callback_funp->hdr.ref++; /* by sentence->function.f */
     }
   else
     {
-      free_sentence (s);
       error ("get_char: fun must be string or function");
+    }
+
+  s = alloc_sentence ();
+  if (!set_call (command_giver, s, flag | I_SINGLE_CHAR))
+    {
+      /* LPC spec. says if get_char() is called more than once, only the first call succeeds.
+       * No error is raised for subsequent calls, but the sentence created for the subsequent
+       * call should be freed to avoid memory leaks.
+       */
+      free_funp (callback_funp);
+      free_sentence (s);
+      return 0;
     }
 
   /* Store function pointer (always use V_FUNCTION now) */
